@@ -58,7 +58,17 @@ type Ctx struct {
 
 func NewCtx(p *load.Prog, tier string) *Ctx {
 	e := gf.NewEngine(p)
-	return &Ctx{P: p, E: e, G: eff.Build(p, e.Sum), Tier: tier, an: map[*gf.Fn]*gf.Analysis{}}
+	c := &Ctx{P: p, E: e, G: eff.Build(p, e.Sum), Tier: tier, an: map[*gf.Fn]*gf.Analysis{}}
+	// which functions existed at the pinned commit (anchors.json): new single-caller functions are expanded whatever their size
+	known := pinnedNames()
+	e.IsPinned = func(f *types.Func) bool {
+		fi := p.FuncInfoOf(f)
+		if fi == nil {
+			return true
+		}
+		return known[fi.Pkg.PkgPath+"|"+scopeShortName(fi)]
+	}
+	return c
 }
 
 func (c *Ctx) add(rule, construct string, pos token.Pos, st Status, nontrivial bool, detail string) {
@@ -240,6 +250,9 @@ func RunProperty(c *Ctx, prop *Property, findings []Finding, seed int, evidenceD
 	func() {
 		defer func() {
 			if r := recover(); r != nil {
+				if os.Getenv("ASV_PANIC") != "" {
+					panic(r)
+				}
 				c.Fail("checker panic: %v", r)
 			}
 		}()
